@@ -7,9 +7,10 @@ CONSTANTS
   MaxLoss = 4
   MaxNegLoss = 2
   MaxRestarts = 0
+  MaxSlow = 0
   PeerModes <- ModesAll
   DenyReplies <- DenyMany
-  AckTails <- TailsBoth
+  AckTails <- TailsAll
   Bug = "none"
 INVARIANT PropertyHolds
 INVARIANT StepFormHolds
